@@ -231,6 +231,11 @@ func (g *Gen) randomIngress(ns, name string, keep *IngressSpec) IngressSpec {
 			if r.Bool() {
 				s.Annotations["session-cookie-preserve"] = "true"
 				s.Annotations["session-cookie-value-strategy"] = gen.Pick(r, []string{"pod-uid", "server-name"})
+				if s.Annotations["session-cookie-value-strategy"] == "pod-uid" && r.Bool() {
+					// static cookies are rendered on the server lines (the default, dynamic cookies, renders none);
+					// with pod-uid the value does not depend on the slot a server got
+					s.Annotations["session-cookie-dynamic"] = "false"
+				}
 			}
 		case 13:
 			createTimeAnnotations(r, &s)
